@@ -20,12 +20,12 @@ import (
 // node's writes run into the (short) write timeout several times, then reads again. From then on the channel
 // must do one of the two things C13 allows: be closed and reported, or deliver what is written to it.
 func TestC13WriteTimeoutsThenRecovery(t *testing.T) {
-	rec := evid.New(t, "C13", "TCP server or client endpoint with a write timeout of 80..250 ms; the peer does not read while 30,000 255-byte-payload messages are written (socket buffers fill, writes time out for 4 write timeouts), then drains the connection and keeps reading; afterwards 12 marker messages are written 20 ms apart: either a close event for the channel has been delivered, or at least one complete marker frame reaches the peer within the bound; non-trivial = always; distinct by hash of the parameters")
+	rec := evid.New(t, "C13", "TCP server or client endpoint with a write timeout of 300..600 ms; the peer does not read while 255-byte-payload messages are written for 0.7 s (30,000 at least) (socket buffers fill, writes time out for 4 write timeouts), then drains the connection and keeps reading; afterwards 12 marker messages are written 20 ms apart: either a close event for the channel has been delivered, or at least one complete marker frame reaches the peer within the bound; non-trivial = always; distinct by hash of the parameters")
 	rec.Require("write-timeouts-on-a-tcp-link-that-recovers")
 	evid.Check(t, rec, evid.N(3, 12), func(t *rapid.T) {
 		drawNodeInit(t)
 		client := rapid.Bool().Draw(t, "node_is_tcp_client")
-		wto := time.Duration(rapid.IntRange(80, 250).Draw(t, "write_timeout_ms")) * time.Millisecond
+		wto := time.Duration(rapid.IntRange(300, 600).Draw(t, "write_timeout_ms")) * time.Millisecond
 		desc := fmt.Sprintf("nodeIsTCPClient=%v writeTimeout=%v", client, wto)
 		var outcome string
 		err := watchdog(scenarioLimit, func() error {
@@ -98,12 +98,55 @@ func runC13TCPRecovery(client bool, wto time.Duration) (string, error) {
 		}
 		return false
 	}
-	for k := 0; k < 30000; k++ {
+	// (the socket buffers of a loopback connection hold several megabytes: keep writing for a while, so that the
+	// writer really ends up blocked in the connection)
+	floodUntil := time.Now().Add(700 * time.Millisecond)
+	for k := 0; k < 30000 || time.Now().Before(floodUntil); k++ {
 		m := &common.MessageEncapsulatedData{Seqnr: uint16(k)}
 		m.Data[252] = 0xEE
 		n.WriteMessageTo(ch, m) //nolint:errcheck
 	}
-	time.Sleep(4 * wto)
+	// while the node's writer is stuck in the connection (for four write timeouts), the peer goes on talking: what it
+	// sends surfaces without waiting for the writer - a stalled direction does not hold up the other one
+	stallEnd := time.Now().Add(4 * wto)
+	for i := 0; time.Now().Before(stallEnd); i++ {
+		time.Sleep(wto / 3)
+		before := 0
+		for _, r := range rec.Snapshot() {
+			if _, ok := r.Ev.(*gomavlib.EventFrame); ok {
+				before++
+			}
+		}
+		sent := time.Now()
+		if _, werr := conn.Write(tagged(1, i, "debug", true, nil, 0).Bytes()); werr != nil {
+			break // the node gave the connection up already: judged below
+		}
+		got := rec.WaitFor(200*time.Millisecond, func(recs []sim.Rec) bool {
+			k := 0
+			for _, r := range recs {
+				if _, ok := r.Ev.(*gomavlib.EventFrame); ok {
+					k++
+				}
+			}
+			return k > before
+		})
+		if !got && !closedEvent() && !stalls.StalledBetween(sent, time.Now()) {
+			// give it the rest of the write timeout, to say how late it was
+			late := rec.WaitFor(2*wto, func(recs []sim.Rec) bool {
+				k := 0
+				for _, r := range recs {
+					if _, ok := r.Ev.(*gomavlib.EventFrame); ok {
+						k++
+					}
+				}
+				return k > before
+			})
+			if closedEvent() {
+				break
+			}
+			return "", fmt.Errorf("the peer does not read (the node's writer is blocked in the connection, write timeout %v) but keeps sending: its frame %d had not surfaced 200 ms after it was sent (it did later: %v, %v after the send) - incoming frames wait for the blocked writer", wto, i, late, time.Since(sent).Round(time.Millisecond))
+		}
+	}
 	// the peer reads again, for good: first whatever had piled up
 	buf := make([]byte, 1<<16)
 	for quiet := 0; quiet < 2; {
